@@ -248,35 +248,7 @@ impl<'a, D: DependencyProvider> Encoder<'a, D> {
             // Add forbid constraints for this solvable on all other
             // solvables that have been visited already for the same
             // version set name.
-            let name_id = self.cache.provider().solvable_name(candidate);
-            let other_solvables = self
-                .state
-                .forbidden_clauses_added
-                .entry(name_id)
-                .or_default();
-            other_solvables.add(
-                candidate_var,
-                |a, b, positive| {
-                    let (watched_literals, kind) = WatchedLiterals::forbid_multiple(
-                        a,
-                        if positive { b.positive() } else { b.negative() },
-                        name_id,
-                    );
-                    let clause_id = self.state.clauses.alloc(watched_literals, kind);
-                    let watched_literals = self.state.clauses.watched_literals
-                        [clause_id.to_usize()]
-                    .as_mut()
-                    .expect("forbid clause must have watched literals");
-                    self.state
-                        .watches
-                        .start_watching(watched_literals, clause_id);
-                },
-                || {
-                    self.state
-                        .variable_map
-                        .alloc_forbid_multiple_variable(name_id)
-                },
-            );
+            self.add_forbid_multiple_clauses(candidate, candidate_var);
         }
 
         // Add the requirements clause
@@ -316,6 +288,44 @@ impl<'a, D: DependencyProvider> Encoder<'a, D> {
         self.state
             .requirement_to_sorted_candidates
             .insert(requirement, version_set_variables);
+    }
+
+    /// Adds the clauses that forbid `candidate` from being installed together
+    /// with any other solvable of the same package that has been registered
+    /// already.
+    pub(crate) fn add_forbid_multiple_clauses(
+        &mut self,
+        candidate: SolvableId,
+        candidate_var: VariableId,
+    ) {
+        let name_id = self.cache.provider().solvable_name(candidate);
+        let other_solvables = self
+            .state
+            .forbidden_clauses_added
+            .entry(name_id)
+            .or_default();
+        other_solvables.add(
+            candidate_var,
+            |a, b, positive| {
+                let (watched_literals, kind) = WatchedLiterals::forbid_multiple(
+                    a,
+                    if positive { b.positive() } else { b.negative() },
+                    name_id,
+                );
+                let clause_id = self.state.clauses.alloc(watched_literals, kind);
+                let watched_literals = self.state.clauses.watched_literals[clause_id.to_usize()]
+                    .as_mut()
+                    .expect("forbid clause must have watched literals");
+                self.state
+                    .watches
+                    .start_watching(watched_literals, clause_id);
+            },
+            || {
+                self.state
+                    .variable_map
+                    .alloc_forbid_multiple_variable(name_id)
+            },
+        );
     }
 
     /// Called when the candidates for a particular constraint are available.
